@@ -126,7 +126,10 @@ GLM_FUNC_QUALIFIER glm_vec4 glm_vec4_round(glm_vec4 x)
 		glm_vec4 const or0 = _mm_or_ps(and0, _mm_set_ps1(8388608.0f));
 		glm_vec4 const add0 = glm_vec4_add(x, or0);
 		glm_vec4 const sub0 = glm_vec4_sub(add0, or0);
-		return sub0;
+		// (x + 2^23) - 2^23 drops the sign of a zero result and is not x when |x| >= 2^23: such x (and inf, NaN) are returned unchanged
+		glm_vec4 const or1 = _mm_or_ps(sub0, and0);
+		glm_vec4 const cmp0 = _mm_cmplt_ps(glm_vec4_abs(x), _mm_set_ps1(8388608.0f));
+		return _mm_or_ps(_mm_and_ps(cmp0, or1), _mm_andnot_ps(cmp0, x));
 #	endif
 }
 
@@ -170,7 +173,8 @@ GLM_FUNC_QUALIFIER glm_vec4 glm_vec4_ceil(glm_vec4 x)
 		glm_vec4 const cmp0 = _mm_cmpgt_ps(x, rnd0);
 		glm_vec4 const and0 = _mm_and_ps(cmp0, _mm_set1_ps(1.0f));
 		glm_vec4 const add0 = glm_vec4_add(rnd0, and0);
-		return add0;
+		// ceil of x in (-1, -0] is -0: the sum above is +0
+		return _mm_or_ps(add0, _mm_and_ps(x, _mm_castsi128_ps(_mm_set1_epi32(int(0x80000000)))));
 #	endif
 }
 
